@@ -548,6 +548,23 @@ func (e *SpecEnv) call(n *SCall) Val {
 	case "key3":
 		a, b, c := e.evalInt(n.Args[0]), e.evalInt(n.Args[1]), e.evalInt(n.Args[2])
 		return scInt(app("key!3", a, b, c))
+	case "rawarr":
+		// rawarr(s): the SMT array behind a slice as it is (element j of the slice is rawarr(s)[offset(s)+j]);
+		// unlike arr() it introduces no shifted copy, so it may be used under a quantifier
+		sl, ok := e.eval(n.Args[0]).(Sl)
+		if !ok {
+			e.fail("rawarr: slice expected")
+		}
+		if _, ok := sl.Arr.(Sc); !ok {
+			e.fail("rawarr() of a slice of non-scalars")
+		}
+		return sl.Arr
+	case "offset":
+		sl, ok := e.eval(n.Args[0]).(Sl)
+		if !ok {
+			e.fail("offset: slice expected")
+		}
+		return scInt(sl.Off)
 	case "fieldarr":
 		// fieldarr(s, f): the raw SMT array of field f of a slice of structs (offset 0)
 		sl, ok := e.eval(n.Args[0]).(Sl)
